@@ -58,6 +58,8 @@ impl RegistrationToken {
 
 pub(crate) struct LoopInner<'l, Data> {
     pub(crate) poll: RefCell<Poll>,
+    /// The poller itself, for the rare places that must reach it while `poll` is borrowed
+    pub(crate) poller: Arc<Poller>,
     // The `Option` is used to keep slots of the slab occupied, to prevent id reuse
     // while in-flight events might still refer to a recently destroyed event source.
     pub(crate) sources: RefCell<SourceList<'l, Data>>,
@@ -439,6 +441,7 @@ impl<'l, Data> EventLoop<'l, Data> {
         let handle = LoopHandle {
             inner: Rc::new(LoopInner {
                 poll: RefCell::new(poll),
+                poller: poller.clone(),
                 sources: RefCell::new(SourceList::new()),
                 idles: RefCell::new(Vec::new()),
                 pending_action: Cell::new(PostAction::Continue),
